@@ -2,8 +2,8 @@
 // bit_floor, has_single_bit, byteswap, set/reset/flip/test_bit) and the experimental
 // net byte-order conversions, against libstdc++ <bit>, htons/htonl and closed forms.
 //
-// Spaces: every value of u8/u16 (all 2^16 x every rotation count in [-130,130] and every bit
-// position); the boundary lattice (c14_common.hpp) for u32/u64 x every count/position.
+// Spaces: every value of u8/u16 (x every rotation count in [-130,130], x every bit position);
+// the boundary lattice (c14_common.hpp) for u32/u64 x every count/position.
 #include "c14_common.hpp"
 
 #include <etl/bit.hpp>
@@ -47,7 +47,7 @@ U ref_rotl(U x, int s)
     constexpr int W = width_v<U>;
     int const k     = ((s % W) + W) % W;
     u128 const wide = u128(x);
-    u128 const both = (wide << k) | (wide >> (W - k)); // k in [0,W): shifts of a 128-bit value by <= 64
+    u128 const both = (wide << k) | (wide >> (W - k)); // k in [0,W): 128-bit shifts by at most 64
     return U(both);
 }
 template <typename T>
@@ -63,17 +63,18 @@ T ref_byteswap(T v)
     return T(o);
 }
 
-template <typename U, typename R>
-void both_agree(Ctx& c, char const* what, U x, R a, R b)
+template <typename U>
+V agree(Ctx& c, char const* what, V x, V lib, V closed)
 {
-    // the two oracles (libstdc++ and the closed form) must agree; if they do not the harness is wrong
-    if (a != b) { c.r.violation("C14", cat("oracle-disagreement:", what), "harness", cat(tname<U>(), " x=", show(x)), "libstdc++ and closed form differ"); }
+    if (lib != closed) { c.oracle_disagreement(what, cat(tname<U>(), " x=", dec(x)), lib, closed); }
+    return lib;
 }
 
 template <typename U>
-std::string cls_rot(int s)
+std::string cls_rot(V, V sv)
 {
     constexpr int W = width_v<U>;
+    int const s     = int(sv);
     if (s == 0) { return "count_zero"; }
     if (s % W == 0) { return s < 0 ? "count_negative_multiple_of_width" : "count_multiple_of_width"; }
     if (s < 0) { return s > -W ? "count_negative" : "count_negative_beyond_width"; }
@@ -82,10 +83,10 @@ std::string cls_rot(int s)
 }
 
 template <typename U>
-std::string cls_pos(U pos)
+std::string cls_pos(V, V pos)
 {
     if (pos == 0) { return "pos_0"; }
-    if (int(pos) == width_v<U> - 1) { return "pos_top"; }
+    if (pos == width_v<U> - 1) { return "pos_top"; }
     return "general";
 }
 
@@ -94,88 +95,71 @@ std::string cls_pos(U pos)
 template <typename U>
 void unary_bits(Ctx& c)
 {
-    auto const& A = full<U>();
-    auto cls      = [](U x) { return cls_unary(x); };
-    auto nt       = [](U x) { return x != 0 && x != std::numeric_limits<U>::max(); };
+    Set const& A = full<U>();
+    TI const t   = ti<U>();
+    auto cls     = &cls_unary<U>;
+    auto nt      = +[](V x) { return x != 0 && x != max_v<U>; };
 
-    sweep1<U>(c, "popcount(x)", A, always, [](U x) { return i128(etl::popcount(x)); },
-        [&](U x) {
-            both_agree(c, "popcount", x, std::popcount(x), ref_popcount(x));
-            return i128(std::popcount(x));
-        },
-        cls, nt);
-    sweep1<U>(c, "detail::popcount_fallback(x)", A, always, [](U x) { return i128(etl::detail::popcount_fallback(x)); },
-        [](U x) { return i128(ref_popcount(x)); }, cls, nt);
-    sweep1<U>(c, "countl_zero(x)", A, always, [](U x) { return i128(etl::countl_zero(x)); },
-        [&](U x) {
-            both_agree(c, "countl_zero", x, std::countl_zero(x), ref_countl(x, 0));
-            return i128(std::countl_zero(x));
-        },
-        cls, nt);
-    sweep1<U>(c, "countl_one(x)", A, always, [](U x) { return i128(etl::countl_one(x)); },
-        [&](U x) {
-            both_agree(c, "countl_one", x, std::countl_one(x), ref_countl(x, 1));
-            return i128(std::countl_one(x));
-        },
-        cls, nt);
-    sweep1<U>(c, "countr_zero(x)", A, always, [](U x) { return i128(etl::countr_zero(x)); },
-        [&](U x) {
-            both_agree(c, "countr_zero", x, std::countr_zero(x), ref_countr(x, 0));
-            return i128(std::countr_zero(x));
-        },
-        cls, nt);
-    sweep1<U>(c, "countr_one(x)", A, always, [](U x) { return i128(etl::countr_one(x)); },
-        [&](U x) {
-            both_agree(c, "countr_one", x, std::countr_one(x), ref_countr(x, 1));
-            return i128(std::countr_one(x));
-        },
-        cls, nt);
-    sweep1<U>(c, "bit_width(x)", A, always, [](U x) { return i128(etl::bit_width(x)); },
-        [&](U x) {
-            both_agree(c, "bit_width", x, int(std::bit_width(x)), width_v<U> - ref_countl(x, 0));
-            return i128(std::bit_width(x));
-        },
-        cls, nt);
-    sweep1<U>(c, "bit_floor(x)", A, always, [](U x) { return i128(etl::bit_floor(x)); },
-        [&](U x) {
-            U const closed = x == 0 ? U(0) : U(U(1) << (width_v<U> - 1 - ref_countl(x, 0)));
-            both_agree(c, "bit_floor", x, std::bit_floor(x), closed);
-            return i128(std::bit_floor(x));
-        },
-        cls, nt);
-    sweep1<U>(c, "has_single_bit(x)", A, always, [](U x) { return i128(etl::has_single_bit(x)); },
-        [&](U x) {
-            both_agree(c, "has_single_bit", x, std::has_single_bit(x), ref_popcount(x) == 1);
-            return i128(std::has_single_bit(x));
-        },
-        cls, nt);
+    sweep1(c, {"popcount(x)", t, "x", always1, [](V x) { return V(etl::popcount(U(x))); },
+                  [](Ctx& c, V x) { return agree<U>(c, "popcount", x, std::popcount(U(x)), ref_popcount(U(x))); }, cls, nt},
+        A);
+    sweep1(c, {"detail::popcount_fallback(x)", t, "x", always1, [](V x) { return V(etl::detail::popcount_fallback(U(x))); },
+                  [](Ctx&, V x) { return V(ref_popcount(U(x))); }, cls, nt},
+        A);
+    sweep1(c, {"countl_zero(x)", t, "x", always1, [](V x) { return V(etl::countl_zero(U(x))); },
+                  [](Ctx& c, V x) { return agree<U>(c, "countl_zero", x, std::countl_zero(U(x)), ref_countl(U(x), 0)); }, cls, nt},
+        A);
+    sweep1(c, {"countl_one(x)", t, "x", always1, [](V x) { return V(etl::countl_one(U(x))); },
+                  [](Ctx& c, V x) { return agree<U>(c, "countl_one", x, std::countl_one(U(x)), ref_countl(U(x), 1)); }, cls, nt},
+        A);
+    sweep1(c, {"countr_zero(x)", t, "x", always1, [](V x) { return V(etl::countr_zero(U(x))); },
+                  [](Ctx& c, V x) { return agree<U>(c, "countr_zero", x, std::countr_zero(U(x)), ref_countr(U(x), 0)); }, cls, nt},
+        A);
+    sweep1(c, {"countr_one(x)", t, "x", always1, [](V x) { return V(etl::countr_one(U(x))); },
+                  [](Ctx& c, V x) { return agree<U>(c, "countr_one", x, std::countr_one(U(x)), ref_countr(U(x), 1)); }, cls, nt},
+        A);
+    sweep1(c, {"bit_width(x)", t, "x", always1, [](V x) { return V(etl::bit_width(U(x))); },
+                  [](Ctx& c, V x) { return agree<U>(c, "bit_width", x, V(std::bit_width(U(x))), width_v<U> - ref_countl(U(x), 0)); }, cls, nt},
+        A);
+    sweep1(c, {"bit_floor(x)", t, "x", always1, [](V x) { return V(etl::bit_floor(U(x))); },
+                  [](Ctx& c, V x) {
+                      V const closed = x == 0 ? V(0) : V(1) << (width_v<U> - 1 - ref_countl(U(x), 0));
+                      return agree<U>(c, "bit_floor", x, std::bit_floor(U(x)), closed);
+                  },
+                  cls, nt},
+        A);
+    sweep1(c, {"has_single_bit(x)", t, "x", always1, [](V x) { return V(etl::has_single_bit(U(x))); },
+                  [](Ctx& c, V x) { return agree<U>(c, "has_single_bit", x, std::has_single_bit(U(x)), ref_popcount(U(x)) == 1); }, cls, nt},
+        A);
     // bit_ceil: domain = the result is representable (x <= 2^(W-1)); beyond that std is undefined too
-    constexpr U topbit = U(U(1) << (width_v<U> - 1));
-    sweep1<U>(c, "bit_ceil(x)", A, [](U x) { return x <= topbit; }, [](U x) { return i128(etl::bit_ceil(x)); },
-        [&](U x) {
-            u128 closed = 1;
-            while (closed < u128(x)) { closed <<= 1; }
-            both_agree(c, "bit_ceil", x, std::bit_ceil(x), U(closed));
-            return i128(std::bit_ceil(x));
-        },
-        [](U x) -> std::string {
-            if (x <= 1) { return "le_1"; }
-            if (std::has_single_bit(x)) { return x == topbit ? "power_of_two_top" : "power_of_two"; }
-            if (x > (topbit >> 1)) { return "result_is_top_bit"; }
-            return "general";
-        },
-        [](U x) { return x > 2 && !std::has_single_bit(x); });
+    sweep1(c, {"bit_ceil(x)", t, "x", [](V x) { return x <= (V(1) << (width_v<U> - 1)); }, [](V x) { return V(etl::bit_ceil(U(x))); },
+                  [](Ctx& c, V x) {
+                      V closed = 1;
+                      while (closed < x) { closed <<= 1; }
+                      return agree<U>(c, "bit_ceil", x, std::bit_ceil(U(x)), closed);
+                  },
+                  [](V x) -> std::string {
+                      V const topbit = V(1) << (width_v<U> - 1);
+                      if (x <= 1) { return "le_1"; }
+                      if (std::has_single_bit(U(x))) { return x == topbit ? "power_of_two_top" : "power_of_two"; }
+                      if (x > (topbit >> 1)) { return "result_is_top_bit"; }
+                      return "general";
+                  },
+                  [](V x) { return x > 2 && !std::has_single_bit(U(x)); }},
+        A);
 }
 
 template <typename T>
 void byteswaps(Ctx& c)
 {
-    auto const& A = full<T>();
-    sweep1<T>(c, "byteswap(x)", A, always, [](T x) { return i128(etl::byteswap(x)); }, [](T x) { return i128(ref_byteswap(x)); },
-        [](T x) { return cls_unary(x); }, [](T x) { return ref_byteswap(x) != x; });
+    Set const& A = full<T>();
+    auto ref     = +[](Ctx&, V x) { return V(ref_byteswap(T(x))); };
+    auto nt      = +[](V x) { return V(ref_byteswap(T(x))) != x; };
+    sweep1(c, {"byteswap(x)", ti<T>(), "x", always1, [](V x) { return V(etl::byteswap(T(x))); }, ref, &cls_unary<T>, nt}, A);
     if constexpr (std::is_unsigned_v<T> && sizeof(T) >= 2) {
-        sweep1<T>(c, "detail::byteswap_fallback(x)", A, always, [](T x) { return i128(etl::detail::byteswap_fallback(x)); },
-            [](T x) { return i128(ref_byteswap(x)); }, [](T x) { return cls_unary(x); }, [](T x) { return ref_byteswap(x) != x; });
+        sweep1(c, {"detail::byteswap_fallback(x)", ti<T>(), "x", always1, [](V x) { return V(etl::detail::byteswap_fallback(T(x))); }, ref,
+                      &cls_unary<T>, nt},
+            A);
     }
 }
 
@@ -184,30 +168,24 @@ void byteswaps(Ctx& c)
 template <typename U>
 void rotations(Ctx& c)
 {
-    static std::vector<int> const counts = [] {
-        // 0, 1, -1, 2, -2 ... 130, -130  (simplest first)
-        std::vector<int> v{0};
+    static Set const counts = [] {
+        Set v{0}; // 0, 1, -1, 2, -2 ... 130, -130  (simplest first)
         for (int s = 1; s <= 130; ++s) {
             v.push_back(s);
             v.push_back(-s);
         }
         return v;
     }();
-    Space<U, int> const sp{{&full<U>(), &counts}};
-    auto cls = [](U, int s) { return cls_rot<U>(s); };
-    auto nt  = [](U x, int s) { return s % width_v<U> != 0 && x != 0 && x != std::numeric_limits<U>::max(); };
-    sweep2<U, int>(c, "rotl(x,s)", sp, always, [](U x, int s) { return i128(etl::rotl(x, s)); },
-        [&](U x, int s) {
-            both_agree(c, "rotl", x, std::rotl(x, s), ref_rotl(x, s));
-            return i128(std::rotl(x, s));
-        },
-        cls, nt, "x", "s");
-    sweep2<U, int>(c, "rotr(x,s)", sp, always, [](U x, int s) { return i128(etl::rotr(x, s)); },
-        [&](U x, int s) {
-            both_agree(c, "rotr", x, std::rotr(x, s), ref_rotl(x, -s));
-            return i128(std::rotr(x, s));
-        },
-        cls, nt, "x", "s");
+    Space const sp{{&full<U>(), &counts}};
+    auto nt = +[](V x, V s) { return int(s) % width_v<U> != 0 && x != 0 && x != max_v<U>; };
+    sweep2(c,
+        {"rotl(x,s)", ti<U>(), ti<int>(), "x", "s", always2, [](V x, V s) { return V(etl::rotl(U(x), int(s))); },
+            [](Ctx& c, V x, V s) { return agree<U>(c, "rotl", x, std::rotl(U(x), int(s)), ref_rotl(U(x), int(s))); }, &cls_rot<U>, nt},
+        sp);
+    sweep2(c,
+        {"rotr(x,s)", ti<U>(), ti<int>(), "x", "s", always2, [](V x, V s) { return V(etl::rotr(U(x), int(s))); },
+            [](Ctx& c, V x, V s) { return agree<U>(c, "rotr", x, std::rotr(U(x), int(s)), ref_rotl(U(x), -int(s))); }, &cls_rot<U>, nt},
+        sp);
 }
 
 // ---- single-bit manipulation: word x position (pos < digits) --------------------------------
@@ -235,56 +213,56 @@ std::array<PosFns<U>, sizeof...(P)> make_posfns(std::index_sequence<P...>)
     }...}};
 }
 
+/// the compile-time position overloads, every Pos < digits, reached through a table
 template <typename U>
-void bit_templates(Ctx& c)
+PosFns<U> const& posfn(V p)
 {
-    // compile-time position overloads: every Pos < digits (instantiated through a table of
-    // function pointers), every word of the value set
     static auto const fns = make_posfns<U>(std::make_index_sequence<std::size_t(width_v<U>)>{});
-    auto const& A         = full<U>();
-    for (std::size_t p = 0; p < fns.size(); ++p) {
-        std::string const tl = cat(tname<U>(), " Pos=", p);
-        auto const& f        = fns[p];
-        U const mask         = U(U(1) << p);
-        auto cls             = [&](U) { return cls_pos<U>(U(p)); };
-        sweep1<U>(c, "set_bit<Pos>(word)", A, always, [&](U w) { return i128(f.set(w)); }, [&](U w) { return i128(U(w | mask)); }, cls,
-            [&](U w) { return (w & mask) == 0; }, tl.c_str());
-        sweep1<U>(c, "set_bit<Pos>(word,true)", A, always, [&](U w) { return i128(f.set_true(w)); },
-            [&](U w) { return i128(U(w | mask)); }, cls, [&](U w) { return (w & mask) == 0; }, tl.c_str());
-        sweep1<U>(c, "set_bit<Pos>(word,false)", A, always, [&](U w) { return i128(f.set_false(w)); },
-            [&](U w) { return i128(U(w & U(~mask))); }, cls, [&](U w) { return (w & mask) != 0; }, tl.c_str());
-        sweep1<U>(c, "reset_bit<Pos>(word)", A, always, [&](U w) { return i128(f.reset(w)); },
-            [&](U w) { return i128(U(w & U(~mask))); }, cls, [&](U w) { return (w & mask) != 0; }, tl.c_str());
-        sweep1<U>(c, "flip_bit<Pos>(word)", A, always, [&](U w) { return i128(f.flip(w)); }, [&](U w) { return i128(U(w ^ mask)); }, cls,
-            always, tl.c_str());
-        sweep1<U>(c, "test_bit<Pos>(word)", A, always, [&](U w) { return i128(f.test(w)); },
-            [&](U w) { return i128((w & mask) != 0); }, cls, [&](U w) { return (w & mask) != 0; }, tl.c_str());
-    }
+    return fns[std::size_t(p)];
 }
 
 template <typename U>
 void bit_manip(Ctx& c)
 {
-    static std::vector<U> const positions = [] {
-        std::vector<U> v;
-        for (int p = 0; p < width_v<U>; ++p) { v.push_back(U(p)); }
+    static Set const positions = [] {
+        Set v;
+        for (int p = 0; p < width_v<U>; ++p) { v.push_back(p); }
         return v;
     }();
-    Space<U, U> const sp{{&full<U>(), &positions}};
-    auto cls  = [](U, U p) { return cls_pos<U>(p); };
-    auto mask = [](U p) { return U(U(1) << p); };
-    sweep2<U, U>(c, "set_bit(word,pos)", sp, always, [](U w, U p) { return i128(etl::set_bit(w, p)); },
-        [&](U w, U p) { return i128(U(w | mask(p))); }, cls, [&](U w, U p) { return (w & mask(p)) == 0; }, "word", "pos");
-    sweep2<U, U>(c, "set_bit(word,pos,true)", sp, always, [](U w, U p) { return i128(etl::set_bit(w, p, true)); },
-        [&](U w, U p) { return i128(U(w | mask(p))); }, cls, [&](U w, U p) { return (w & mask(p)) == 0; }, "word", "pos");
-    sweep2<U, U>(c, "set_bit(word,pos,false)", sp, always, [](U w, U p) { return i128(etl::set_bit(w, p, false)); },
-        [&](U w, U p) { return i128(U(w & U(~mask(p)))); }, cls, [&](U w, U p) { return (w & mask(p)) != 0; }, "word", "pos");
-    sweep2<U, U>(c, "reset_bit(word,pos)", sp, always, [](U w, U p) { return i128(etl::reset_bit(w, p)); },
-        [&](U w, U p) { return i128(U(w & U(~mask(p)))); }, cls, [&](U w, U p) { return (w & mask(p)) != 0; }, "word", "pos");
-    sweep2<U, U>(c, "flip_bit(word,pos)", sp, always, [](U w, U p) { return i128(etl::flip_bit(w, p)); },
-        [&](U w, U p) { return i128(U(w ^ mask(p))); }, cls, always, "word", "pos");
-    sweep2<U, U>(c, "test_bit(word,pos)", sp, always, [](U w, U p) { return i128(etl::test_bit(w, p)); },
-        [&](U w, U p) { return i128((w & mask(p)) != 0); }, cls, [&](U w, U p) { return (w & mask(p)) != 0; }, "word", "pos");
+    Space const sp{{&full<U>(), &positions}};
+    TI const t   = ti<U>();
+    auto cls     = &cls_pos<U>;
+    auto r_set   = +[](Ctx&, V w, V p) { return V(U(U(w) | U(U(1) << int(p)))); };
+    auto r_reset = +[](Ctx&, V w, V p) { return V(U(U(w) & U(~U(U(1) << int(p))))); };
+    auto r_flip  = +[](Ctx&, V w, V p) { return V(U(U(w) ^ U(U(1) << int(p)))); };
+    auto r_test  = +[](Ctx&, V w, V p) { return V((U(w) >> int(p)) & 1U); };
+    auto is_set  = +[](V w, V p) { return ((U(w) >> int(p)) & 1U) != 0; };
+    auto is_clr  = +[](V w, V p) { return ((U(w) >> int(p)) & 1U) == 0; };
+
+    sweep2(c, {"set_bit(word,pos)", t, t, "word", "pos", always2, [](V w, V p) { return V(etl::set_bit(U(w), U(p))); }, r_set, cls, is_clr}, sp);
+    sweep2(c,
+        {"set_bit(word,pos,true)", t, t, "word", "pos", always2, [](V w, V p) { return V(etl::set_bit(U(w), U(p), true)); }, r_set, cls, is_clr},
+        sp);
+    sweep2(c,
+        {"set_bit(word,pos,false)", t, t, "word", "pos", always2, [](V w, V p) { return V(etl::set_bit(U(w), U(p), false)); }, r_reset, cls,
+            is_set},
+        sp);
+    sweep2(c, {"reset_bit(word,pos)", t, t, "word", "pos", always2, [](V w, V p) { return V(etl::reset_bit(U(w), U(p))); }, r_reset, cls, is_set},
+        sp);
+    sweep2(c, {"flip_bit(word,pos)", t, t, "word", "pos", always2, [](V w, V p) { return V(etl::flip_bit(U(w), U(p))); }, r_flip, cls, always2},
+        sp);
+    sweep2(c, {"test_bit(word,pos)", t, t, "word", "pos", always2, [](V w, V p) { return V(etl::test_bit(U(w), U(p))); }, r_test, cls, is_set},
+        sp);
+
+    sweep2(c, {"set_bit<Pos>(word)", t, t, "word", "Pos", always2, [](V w, V p) { return V(posfn<U>(p).set(U(w))); }, r_set, cls, is_clr}, sp);
+    sweep2(c, {"set_bit<Pos>(word,true)", t, t, "word", "Pos", always2, [](V w, V p) { return V(posfn<U>(p).set_true(U(w))); }, r_set, cls, is_clr},
+        sp);
+    sweep2(c,
+        {"set_bit<Pos>(word,false)", t, t, "word", "Pos", always2, [](V w, V p) { return V(posfn<U>(p).set_false(U(w))); }, r_reset, cls, is_set},
+        sp);
+    sweep2(c, {"reset_bit<Pos>(word)", t, t, "word", "Pos", always2, [](V w, V p) { return V(posfn<U>(p).reset(U(w))); }, r_reset, cls, is_set}, sp);
+    sweep2(c, {"flip_bit<Pos>(word)", t, t, "word", "Pos", always2, [](V w, V p) { return V(posfn<U>(p).flip(U(w))); }, r_flip, cls, always2}, sp);
+    sweep2(c, {"test_bit<Pos>(word)", t, t, "word", "Pos", always2, [](V w, V p) { return V(posfn<U>(p).test(U(w))); }, r_test, cls, is_set}, sp);
 }
 
 // ---- host/network byte order -------------------------------------------------------------
@@ -293,30 +271,32 @@ template <typename T>
 void byte_order(Ctx& c)
 {
     namespace net = etl::experimental::net;
-    auto const& A = full<T>();
-    auto ref      = [](T v) -> i128 {
+    Set const& A  = full<T>();
+    auto ref      = +[](Ctx&, V v) -> V {
         if constexpr (sizeof(T) == 1) {
-            return i128(v);
+            return v;
         } else if constexpr (sizeof(T) == 2) {
-            return i128(htons(v));
+            return V(htons(T(v)));
         } else {
-            return i128(htonl(v));
+            return V(htonl(T(v)));
         }
     };
-    auto refn = [](T v) -> i128 {
+    auto refn = +[](Ctx&, V v) -> V {
         if constexpr (sizeof(T) == 1) {
-            return i128(v);
+            return v;
         } else if constexpr (sizeof(T) == 2) {
-            return i128(ntohs(v));
+            return V(ntohs(T(v)));
         } else {
-            return i128(ntohl(v));
+            return V(ntohl(T(v)));
         }
     };
-    auto cls = [](T x) { return cls_unary(x); };
-    auto nt  = [](T x) { return sizeof(T) > 1 && ref_byteswap(x) != x; };
-    sweep1<T>(c, "net::hton(v)", A, always, [](T v) { return i128(net::hton(v)); }, ref, cls, nt);
-    sweep1<T>(c, "net::ntoh(v)", A, always, [](T v) { return i128(net::ntoh(v)); }, refn, cls, nt);
-    sweep1<T>(c, "net::ntoh(net::hton(v))", A, always, [](T v) { return i128(net::ntoh(net::hton(v))); }, [](T v) { return i128(v); }, cls, nt);
+    auto nt = +[](V x) { return sizeof(T) > 1 && V(ref_byteswap(T(x))) != x; };
+    sweep1(c, {"net::hton(v)", ti<T>(), "v", always1, [](V v) { return V(net::hton(T(v))); }, ref, &cls_unary<T>, nt}, A);
+    sweep1(c, {"net::ntoh(v)", ti<T>(), "v", always1, [](V v) { return V(net::ntoh(T(v))); }, refn, &cls_unary<T>, nt}, A);
+    sweep1(c,
+        {"net::ntoh(net::hton(v))", ti<T>(), "v", always1, [](V v) { return V(net::ntoh(net::hton(T(v)))); }, [](Ctx&, V v) { return v; },
+            &cls_unary<T>, nt},
+        A);
 }
 
 template <typename U>
@@ -336,10 +316,6 @@ void add_jobs(mc::Main& m)
     m.job("bitpos-" + t, {"quick", "thorough"}, [](mc::Reporter& r) {
         Ctx c(r);
         bit_manip<U>(c);
-    });
-    m.job("bitpos-template-" + t, {"quick", "thorough"}, [](mc::Reporter& r) {
-        Ctx c(r);
-        bit_templates<U>(c);
     });
 }
 
